@@ -47,7 +47,8 @@ DOC_ORDER = {
 }
 DT = 0.5                         # step size of all runs (not 1, so that a missing/extra factor dt is visible); lambda = z / DT
 TOL_TABLE = F(1, 2 ** 40)        # |c_j - 1/j!| for table coefficients (observed <= 2^-47, see evidence)
-IMPLICIT_QD = ['IE', 'LU', 'MIN-SR-S', 'MIN-SR-NS', 'MIN-SR-FLEX', 'IEpar', 'Qpar', 'MIN', 'MIN3', 'PIC', 'LU2', 'VDHS', 'TRAP', 'GS']
+IMPLICIT_QD = ['IE', 'LU', 'MIN-SR-S', 'MIN-SR-NS', 'MIN-SR-FLEX', 'IEpar', 'Qpar', 'MIN', 'MIN3', 'PIC', 'LU2', 'VDHS', 'TRAP', 'GS', 'FB', 'FB2']
+KDEP_QD = ['MIN-SR-FLEX', 'FB', 'FB2']     # sweep-dependent preconditioners of qmat (MIN_SR_FLEX, Jumper, FlexJumper)
 EXPLICIT_QD = ['EE', 'PIC']
 
 
@@ -358,8 +359,24 @@ def _run(ck):
     NF = 64
     Kcap = 12 if thorough else 8
     Mmax = 7 if thorough else 5
-    nconf = 90 if thorough else 36
+    nconf = 90 if thorough else 30
     confs = []
+    # forced configurations, every run: k sweeps done as maxiter = 1, nsweeps = k (the only way the controller advances the
+    # sweep index handed to updateVariableCoeffs), for generic_implicit AND imex_1st_order, with every sweep-dependent
+    # preconditioner and one fixed one; the model gets the per-sweep matrices QI_1, QI_2, ...
+    fi = 0
+    for kind in ('implicit', 'imex'):
+        for QIname in KDEP_QD + ['LU']:
+            for rep in range(2 if thorough else 1):
+                qt = QUAD_TYPES[(fi + ck.seed) % 4]
+                conf = {'nt': NODE_TYPES[(fi * 5 + ck.seed) % 6] if rep else 'LEGENDRE', 'qt': qt,
+                        'M': rng.randint(2, 3 if not thorough else 5), 'kind': kind, 'upd': rng.random() < 0.5,
+                        'nsweeps_mode': True, 'QI': QIname, 'Kcap': 6 if not thorough else 9}
+                if kind == 'imex':
+                    conf['QE'] = rng.choice(EXPLICIT_QD)
+                    conf['alpha'] = rng.choice([F(1, 2), F(3, 4), F(1)])
+                confs.append(conf)
+                fi += 1
     kinds = (['implicit'] * 5 + ['explicit'] * 2 + ['imex'] * 3)
     for ci in range(nconf):
         nt = NODE_TYPES[ci % 6]
@@ -369,14 +386,14 @@ def _run(ck):
         conf = {'nt': nt, 'qt': qt, 'M': M, 'kind': kind, 'upd': rng.random() < 0.5, 'nsweeps_mode': False}
         if kind == 'implicit':
             conf['QI'] = IMPLICIT_QD[ci % len(IMPLICIT_QD)]
-            if conf['QI'] == 'MIN-SR-FLEX':
-                conf['nsweeps_mode'] = rng.random() < 0.7
+            conf['nsweeps_mode'] = rng.random() < (0.7 if conf['QI'] in KDEP_QD else 0.2)
         elif kind == 'explicit':
             conf['QE'] = EXPLICIT_QD[ci % len(EXPLICIT_QD)]
         else:
-            conf['QI'] = rng.choice(['IE', 'LU', 'MIN-SR-S'])
+            conf['QI'] = rng.choice(['IE', 'LU', 'MIN-SR-S'] + KDEP_QD)
             conf['QE'] = rng.choice(EXPLICIT_QD)
             conf['alpha'] = rng.choice([F(1, 4), F(1, 2), F(3, 4), F(1), F(0)])
+            conf['nsweeps_mode'] = rng.random() < (0.7 if conf['QI'] in KDEP_QD else 0.2)
         confs.append(conf)
 
     skipped = []
@@ -398,7 +415,7 @@ def _run(ck):
             continue
         coll = probe.coll
         p = int(coll.order)
-        K = min(p + 2, Kcap)
+        K = min(p + 2, conf.get('Kcap', Kcap))
         # the preconditioner matrices the controller will use in sweep s = 1..K
         QDs = []
         for s in range(1, K + 1):
